@@ -23,6 +23,8 @@ Good(ev) ==
              \/ ev.op = "Iterate"  /\ Iterate
              \/ ev.op = "Find"     /\ Find(a.name)
              \/ ev.op = "Reopen"   /\ Reopen
+             \/ ev.op = "Peek"     /\ Peek
+             \/ ev.op = "Reattach" /\ Reattach(a.g, a.mode)
           /\ ObsOK(out', o)
 TraceInit == Init /\ l = 1 /\ TLCSet(1, 1)
 TraceNext ==
